@@ -18,6 +18,47 @@ CLAIMED = {
         "are not asserted.",
         "4/C01",
     ),
+    "C04": (
+        "Hypothesis-generated solver runs (grid x masses x method x discretisation x back-end x "
+        "Anderson x weights) with invariants on the captured solution, plus injected one-shot "
+        "failures of the inner linear solve at each iteration index",
+        "Each generated run is checked against oracles that are independent of the solver: the "
+        "harness's own incidence matrix for the mass balance, its own RT0 interpolation and numpy "
+        "quadrature for the cost of the returned flux, re-evaluation of the stopping inequalities "
+        "from the recorded history; fault sequences are enumerated by injecting an exception into "
+        "the k-th inner solve (bound-method wrap, no source hook). The full option matrix is run "
+        "exhaustively on three fixed grids. Sampling of a large configuration space: exploration "
+        "with fault enumeration.",
+        "numpy dense algebra and the RefGrid incidence model are trusted; iterates with a "
+        "non-finite / >1e12 mobility weight are a recorded known finding and excluded by predicate.",
+        "4/C04",
+    ),
+    "C08": (
+        "exhaustive shape enumeration (direct back-end) + Hypothesis-generated systems and solver "
+        "re-use sequences vs a dense reference solve of the harness-assembled saddle-point system",
+        "Every grid shape of the C07 range is enumerated for the three formulations with the direct "
+        "back-end; iterative back-ends, re-use histories and end-to-end distances are sampled. The "
+        "oracle is numpy.linalg.solve on a system assembled from the independent incidence model, "
+        "so formulation-specific index surgery (Schur complement, CSC row/column removal) is "
+        "checked against something that shares no code with it.",
+        "dense solve trusted; tolerance scaled with cond(A); PETSc ksp absent; reuse with a changed "
+        "matrix not asserted.",
+        "4/C08",
+    ),
+    "C05": (
+        "Hypothesis-generated pairs and options against metamorphic relations (swap, rescaling, "
+        "constant weight), an analytic first-moment lower bound, a certified brute-force minimum in "
+        "the cycle space, the closed-form cost of the unique flux on thin grids, a front-end / "
+        "back-end differential and cv2.EMD closed forms",
+        "Metric laws are checked as metamorphic relations on generated inputs (exact where the "
+        "iteration is provably equivariant, loose where only converged values are comparable); lower "
+        "bounds hold for every run, converged or not; the brute-force bound minimises the library's "
+        "own discrete functional (re-assembled by the harness, self-checked against l1_dissipation) "
+        "over all mass-conserving fluxes with a certified optimality gap.",
+        "near-optimality and the triangle inequality are not asserted; Anderson-accelerated runs are "
+        "exempt from the swap symmetry (LAPACK rounding is not sign-symmetric and is amplified).",
+        "4/C05",
+    ),
     "C06": (
         "exhaustive shape enumeration + Hypothesis-generated grids vs an independent incidence model "
         "(net outflow, adjointness, interpolation, averaging laws)",
@@ -50,6 +91,8 @@ CLAIMED = {
     ),
 }
 
+LEVELS = {"C04": "fault_enumeration"}
+
 PENDING_REASON = "check under construction in this session - not yet claimed"
 
 
@@ -68,7 +111,7 @@ def main():
                 "evidence_file": f"evidence/{pid}.json",
                 "replay_cmd_template": f"/venv/bin/python run_check.py {pid} --replay {{path}}",
                 "engine": "vf",
-                "level_claimed": {"category": "exploration", "text": text, "design_ref": ref},
+                "level_claimed": {"category": LEVELS.get(pid, "exploration"), "text": text, "design_ref": ref},
                 "level_note": note,
                 "technique": "property-based testing: " + tech,
             })
